@@ -238,6 +238,13 @@ class Gen:
             if which < 0.8:
                 return ["bind", x, ["lam", V]]
             self.mark_other(x)
+            if rng.random() < 0.5:
+                # walrus inside the comprehension: binds in this function
+                w = self.name()
+                while w == x:
+                    w = self.name()
+                self.mark_int(w)
+                return [["bind", w, ["const", 0]], ["bind", x, ["comp", ["walrus", w, ["add", ["var", w], V]]]]]
             return ["bind", x, ["comp", V]]
         if kind == "use":
             vs = sorted(self.bound)
